@@ -92,3 +92,11 @@ def units(prop, tier):
 # NOT PROVED: W(W_inverse(C)) == C / W_inverse(W(S)) == S (needed for unseal(seal(P)) == P): the 12+ nested E(D(.)) rewrites time out (57 s for n = 3).
 # NOTE: KWPMode never sets _done (KWMode does): a KWP object can seal/unseal repeatedly; the `_done` test in KWPMode is dead code.  No property
 #       of the list is violated by it (KW/KWP have no documented call-order automaton), so it is recorded here only.
+#
+# ASSUMED: native ECB object (one block: spec.aead2.E / D, mutually inverse permutations), <cipher module>.new, strxor; bounded/modes.py KW/KWP.
+# Mutants (tools/mut.py):
+#   M14  C01 _mode_kw.py unseal: `if len(ciphertext) < 16:`                       -> exit 1, unseal call_pre (W_inverse needs >= 24 bytes)
+#   M14b C01 _mode_kw.py unseal: last ICV byte A7                                 -> exit 1, unseal raises_iff.ValueError.if
+#   M15  C01 _mode_kwp.py unseal: `padlen > 8`                                    -> exit 1, unseal raises_iff.ValueError.if
+#   M16/M16b C02 _mode_kw.py W: `cipher.encrypt(R.popleft() + A)` / `R.append(ct[:8])` -> exit 2 (ensures.w undecided: no counter-model found through 12
+#        nested applications of the uninterpreted E; the proof does not survive the change, but it is not reported as a violation)
